@@ -175,7 +175,8 @@ def apply_png_predictor(
     nbytes = (colors * columns * bitspercomponent + 7) // 8
     bpp = max(1, colors * bitspercomponent // 8)
     buf = []
-    line_above = list(b"\x00" * nbytes)
+    # the row above the first one is all zeros; no row is longer than the data
+    line_above = list(b"\x00" * min(nbytes, len(data)))
     for scanline_i in range(0, len(data), nbytes + 1):
         filter_type = data[scanline_i]
         line_encoded = data[scanline_i + 1 : scanline_i + 1 + nbytes]
